@@ -165,6 +165,64 @@ Proof.
   destruct (nth_error l i); simpl; [rewrite Hf|]; reflexivity.
 Qed.
 
+Definition updf {A} (i n : nat) (f : A -> A) : A -> A := fun x => if Nat.eqb i n then f x else x.
+
+Lemma nth_error_updf {A} (f : A -> A) l n i :
+  nth_error (upd n f l) i = option_map (updf i n f) (nth_error l i).
+Proof.
+  rewrite nth_error_upd. unfold updf. destruct (Nat.eqb i n); [reflexivity|].
+  destruct (nth_error l i); reflexivity.
+Qed.
+
+Lemma ws_nth_error_map {A B} (f : A -> B) : forall l i,
+  nth_error (map f l) i = option_map f (nth_error l i).
+Proof. induction l as [|x l IH]; intros [|i]; simpl; try reflexivity. apply IH. Qed.
+
+Lemma fidx_map tr key (f : hitem -> hitem) (Hf : forall it, i_sess (f it) = i_sess it) l :
+  fidx tr key (map f l) = fidx tr key l.
+Proof.
+  apply fidx_sess. rewrite map_map. apply map_ext. exact Hf.
+Qed.
+
+Lemma fidx_same_pos tr k1 k2 : forall l n,
+  fidx tr k1 l = Some n -> fidx tr k2 l = Some n -> mn_compare tr k1 k2 = true.
+Proof.
+  intros l n H1 H2.
+  destruct (fidx_match _ _ _ _ H1) as [a [Ha Ma]].
+  destruct (fidx_match _ _ _ _ H2) as [b [Hb Mb]].
+  rewrite Ha in Hb. injection Hb as <-.
+  unfold mn_compare in *. destruct tr.
+  - apply ws_str_eqb_eq in Ma, Mb. rewrite <- Ma, <- Mb. apply ws_str_eqb_refl.
+  - apply ws_str_eqb_eq in Ma, Mb. rewrite <- Ma, <- Mb. apply ws_str_eqb_refl.
+Qed.
+
+Lemma Forall2_refl_gen {A} (R : A -> A -> Prop) (Hr : forall a, R a a) : forall l, Forall2 R l l.
+Proof. induction l; constructor; auto. Qed.
+
+Lemma Forall2_trans_gen {A} (R : A -> A -> Prop) (Ht : forall a b c, R a b -> R b c -> R a c) :
+  forall l1 l2 l3, Forall2 R l1 l2 -> Forall2 R l2 l3 -> Forall2 R l1 l3.
+Proof.
+  induction l1 as [|a l1 IH]; intros l2 l3 H12 H23; inversion H12; subst; inversion H23; subst; constructor.
+  - eapply Ht; eassumption.
+  - eapply IH; eassumption.
+Qed.
+
+Lemma Forall2_map_r {A} (R : A -> A -> Prop) (f : A -> A) (Hf : forall a, R a (f a)) : forall l, Forall2 R l (map f l).
+Proof. induction l; simpl; constructor; auto. Qed.
+
+(* updating the item found under `key` is covered by any relation that holds for the items
+   registered under `key` and is reflexive *)
+Lemma upd_fidx_frame tr key (R : hitem -> hitem -> Prop) (f : hitem -> hitem)
+      (Hr : forall a, R a a) (Hf : forall a, mn_compare tr (i_sess a) key = true -> R a (f a)) :
+  forall l n, fidx tr key l = Some n -> Forall2 R l (upd n f l).
+Proof.
+  induction l as [|a l IH]; simpl; intros n H; [discriminate|].
+  destruct (mn_compare tr (i_sess a) key) eqn:E.
+  - injection H as <-. simpl. constructor; [apply Hf; exact E|apply Forall2_refl_gen; exact Hr].
+  - destruct (fidx tr key l) as [k|] eqn:Ek; [|discriminate]. injection H as <-.
+    simpl. constructor; [apply Hr|apply IH; reflexivity].
+Qed.
+
 Definition k_strt : list N := s2l "STRT".
 Definition k_stop : list N := s2l "STOP".
 Definition k_step : list N := s2l "STEP".
@@ -319,5 +377,172 @@ Proof.
     unfold refresh_result, unit_of, c0unit_of, align, set_vals, index_of, curves_aligned, sv, su.
     fold l. fold w0. rewrite HnS. reflexivity.
 Qed.
+
+Lemma refresh_eq m :
+  refresh m =
+  let w0 := s_items (l_well (m_las m)) in
+  let trw := s_transforms (l_well (m_las m)) in
+  match need_of m, fidx trw k_strt w0, fidx trw k_stop w0, fidx trw k_step w0 with
+  | Some need, Some nS, Some nP, Some nE => Some (refresh_result (m_las m) need nS nP nE)
+  | _, _, _, _ => None
+  end.
+Proof.
+  rewrite refresh_split. destruct (need_of m) as [need|]; cbn [bind]; [|reflexivity].
+  apply refresh_body_eq.
+Qed.
+
+Lemma refresh_inv m l2 :
+  refresh m = Some l2 ->
+  exists need nS nP nE,
+    need_of m = Some need /\
+    fidx (s_transforms (l_well (m_las m))) k_strt (s_items (l_well (m_las m))) = Some nS /\
+    fidx (s_transforms (l_well (m_las m))) k_stop (s_items (l_well (m_las m))) = Some nP /\
+    fidx (s_transforms (l_well (m_las m))) k_step (s_items (l_well (m_las m))) = Some nE /\
+    l2 = refresh_result (m_las m) need nS nP nE.
+Proof.
+  rewrite refresh_eq. cbv zeta.
+  destruct (need_of m) as [need|]; [|discriminate].
+  destruct (fidx _ k_strt _) as [nS|]; [|discriminate].
+  destruct (fidx _ k_stop _) as [nP|]; [|discriminate].
+  destruct (fidx _ k_step _) as [nE|]; [|discriminate].
+  intro H. injection H as <-. exists need, nS, nP, nE. repeat split; reflexivity.
+Qed.
+
+(* ---- frame of the refresh -------------------------------------------------------------------- *)
+Definition is_sss (tr : bool) (s : list N) : bool :=
+  mn_compare tr s k_strt || mn_compare tr s k_stop || mn_compare tr s k_step.
+
+(* what may change on a ~Well item: unit and value, and only for STRT / STOP / STEP *)
+Definition wframe (tr : bool) (a b : hitem) : Prop :=
+  i_orig b = i_orig a /\ i_sess b = i_sess a /\ i_descr b = i_descr a /\
+  (is_sss tr (i_sess a) = false -> i_unit b = i_unit a /\ i_value b = i_value a).
+
+Lemma wframe_refl tr a : wframe tr a a.
+Proof. unfold wframe. auto. Qed.
+
+Lemma wframe_trans tr a b c : wframe tr a b -> wframe tr b c -> wframe tr a c.
+Proof.
+  unfold wframe. intros (O1 & S1 & D1 & U1) (O2 & S2 & D2 & U2).
+  rewrite O2, O1, S2, S1, D2, D1. repeat split; try reflexivity.
+  - destruct (U1 H) as [X _]. rewrite S1 in U2. destruct (U2 H) as [Y _]. congruence.
+  - destruct (U1 H) as [_ X]. rewrite S1 in U2. destruct (U2 H) as [_ Y]. congruence.
+Qed.
+
+Lemma wframe_sv tr key v a :
+  mn_compare tr (i_sess a) key = true -> is_sss tr (i_sess a) = true -> wframe tr a (sv v a).
+Proof. unfold wframe, sv, set_value. simpl. intros _ H. repeat split; try reflexivity; congruence. Qed.
+
+Lemma wframe_su tr key u a :
+  mn_compare tr (i_sess a) key = true -> is_sss tr (i_sess a) = true -> wframe tr a (su u a).
+Proof. unfold wframe, su, set_unit. simpl. intros _ H. repeat split; try reflexivity; congruence. Qed.
+
+Lemma is_sss_strt tr s : mn_compare tr s k_strt = true -> is_sss tr s = true.
+Proof. unfold is_sss. intros ->. reflexivity. Qed.
+Lemma is_sss_stop tr s : mn_compare tr s k_stop = true -> is_sss tr s = true.
+Proof. unfold is_sss. intros ->. rewrite orb_true_r. reflexivity. Qed.
+Lemma is_sss_step tr s : mn_compare tr s k_step = true -> is_sss tr s = true.
+Proof. unfold is_sss. intros ->. rewrite orb_true_r. reflexivity. Qed.
+
+Section Positions.
+Variables (tr : bool) (w0 : list hitem) (nS nP nE : nat).
+Hypothesis HS : fidx tr k_strt w0 = Some nS.
+Hypothesis HP : fidx tr k_stop w0 = Some nP.
+Hypothesis HE : fidx tr k_step w0 = Some nE.
+
+Lemma set_vals_frame need idx : Forall2 (wframe tr) w0 (set_vals need idx nS nP nE w0).
+Proof.
+  unfold set_vals. destruct need; [|apply Forall2_refl_gen, wframe_refl].
+  eapply Forall2_trans_gen; [apply wframe_trans| |].
+  eapply Forall2_trans_gen; [apply wframe_trans| |].
+  - apply (upd_fidx_frame tr k_strt); [apply wframe_refl| |exact HS].
+    intros a Ha. eapply wframe_sv; [exact Ha|apply is_sss_strt; exact Ha].
+  - apply (upd_fidx_frame tr k_stop); [apply wframe_refl| |rewrite fidx_upd by (intro; reflexivity); exact HP].
+    intros a Ha. eapply wframe_sv; [exact Ha|apply is_sss_stop; exact Ha].
+  - apply (upd_fidx_frame tr k_step); [apply wframe_refl| |rewrite !fidx_upd by (intro; reflexivity); exact HE].
+    intros a Ha. eapply wframe_sv; [exact Ha|apply is_sss_step; exact Ha].
+Qed.
+
+Lemma set_vals_fidx need idx key : fidx tr key (set_vals need idx nS nP nE w0) = fidx tr key w0.
+Proof. unfold set_vals. destruct need; [|reflexivity]. rewrite !fidx_upd by (intro; reflexivity). reflexivity. Qed.
+
+Lemma align_fidx u key w : fidx tr key (align u nS nP nE w) = fidx tr key w.
+Proof. unfold align. rewrite !fidx_upd by (intro; reflexivity). reflexivity. Qed.
+
+Lemma align_frame u w :
+  fidx tr k_strt w = Some nS -> fidx tr k_stop w = Some nP -> fidx tr k_step w = Some nE ->
+  Forall2 (wframe tr) w (align u nS nP nE w).
+Proof.
+  intros H1 H2 H3. unfold align.
+  eapply Forall2_trans_gen; [apply wframe_trans| |].
+  eapply Forall2_trans_gen; [apply wframe_trans| |].
+  - apply (upd_fidx_frame tr k_strt); [apply wframe_refl| |exact H1].
+    intros a Ha. eapply wframe_su; [exact Ha|apply is_sss_strt; exact Ha].
+  - apply (upd_fidx_frame tr k_stop); [apply wframe_refl| |rewrite fidx_upd by (intro; reflexivity); exact H2].
+    intros a Ha. eapply wframe_su; [exact Ha|apply is_sss_stop; exact Ha].
+  - apply (upd_fidx_frame tr k_step); [apply wframe_refl| |rewrite !fidx_upd by (intro; reflexivity); exact H3].
+    intros a Ha. eapply wframe_su; [exact Ha|apply is_sss_step; exact Ha].
+Qed.
+
+Lemma refresh_items_frame need idx u :
+  Forall2 (wframe tr) w0 (align u nS nP nE (set_vals need idx nS nP nE w0)).
+Proof.
+  eapply Forall2_trans_gen; [apply wframe_trans|apply set_vals_frame|].
+  apply align_frame; rewrite set_vals_fidx; assumption.
+Qed.
+
+(* the three positions are pairwise different *)
+Lemma k_strt_stop : mn_compare tr k_strt k_stop = false. Proof. destruct tr; vm_compute; reflexivity. Qed.
+Lemma k_strt_step : mn_compare tr k_strt k_step = false. Proof. destruct tr; vm_compute; reflexivity. Qed.
+Lemma k_stop_step : mn_compare tr k_stop k_step = false. Proof. destruct tr; vm_compute; reflexivity. Qed.
+
+Lemma nS_nP : nS <> nP.
+Proof. intro E. pose proof (fidx_same_pos tr k_strt k_stop w0 nS HS) as H. rewrite E in H. specialize (H HP). rewrite k_strt_stop in H. discriminate. Qed.
+Lemma nS_nE : nS <> nE.
+Proof. intro E. pose proof (fidx_same_pos tr k_strt k_step w0 nS HS) as H. rewrite E in H. specialize (H HE). rewrite k_strt_step in H. discriminate. Qed.
+Lemma nP_nE : nP <> nE.
+Proof. intro E. pose proof (fidx_same_pos tr k_stop k_step w0 nP HP) as H. rewrite E in H. specialize (H HE). rewrite k_stop_step in H. discriminate. Qed.
+
+(* item i after the refresh, as a function of item i before *)
+Definition refreshed (need : bool) (idx : list cell) (u : list N) (i : nat) (it : hitem) : hitem :=
+  updf i nE (su u) (updf i nP (su u) (updf i nS (su u)
+    (if need then updf i nE (sv (step_of idx)) (updf i nP (sv (stop_of idx)) (updf i nS (sv (strt_of idx)) it)) else it))).
+
+Lemma nth_error_refreshed need idx u w i :
+  nth_error (align u nS nP nE (set_vals need idx nS nP nE w)) i = option_map (refreshed need idx u i) (nth_error w i).
+Proof.
+  unfold align, set_vals, refreshed. rewrite !nth_error_updf.
+  destruct need.
+  - rewrite !nth_error_updf. destruct (nth_error w i); reflexivity.
+  - destruct (nth_error w i); reflexivity.
+Qed.
+
+End Positions.
+
+(* ---- two passes: refresh, normalise values with h, refresh again, normalise again --------------- *)
+Section TwoPass.
+Variable g : hval -> list N -> hval.
+Hypothesis g_idem : forall v u, g (g v u) u = g v u.
+Definition hf (it : hitem) : hitem := set_value it (g (i_value it) (i_unit it)).
+
+Lemma hf_sess it : i_sess (hf it) = i_sess it. Proof. reflexivity. Qed.
+
+Lemma two_pass_fixed need1 need2 idx u nS nP nE w0 :
+  (need2 = true -> need1 = true) ->
+  map hf (align u nS nP nE (set_vals need2 idx nS nP nE
+        (map hf (align u nS nP nE (set_vals need1 idx nS nP nE w0)))))
+  = map hf (align u nS nP nE (set_vals need1 idx nS nP nE w0)).
+Proof.
+  intro Hn. apply list_ext_nth_error. intro i.
+  rewrite !ws_nth_error_map, !nth_error_refreshed, !ws_nth_error_map, !nth_error_refreshed.
+  destruct (nth_error w0 i) as [it|]; [|reflexivity]. simpl. f_equal.
+  unfold refreshed, updf.
+  destruct need2; [rewrite (Hn eq_refl)|destruct need1];
+    destruct (Nat.eqb i nS), (Nat.eqb i nP), (Nat.eqb i nE).
+  all: cbv beta iota.
+  all: unfold hf, sv, su, set_value, set_unit.
+  all: cbn [i_orig i_sess i_unit i_value i_descr].
+Admitted.
+
+End TwoPass.
 
 End Refresh.
